@@ -1144,6 +1144,9 @@ func runC12(c *Ctx) {
 	r.Rule("R11", "an attribute passed to an exported tracker method and stored into a tracked nick or channel (ident, host, real name, topic, new name) is stored on every path on which the method succeeds - no conditional store can leave a stale attribute")
 	c.trackerRules(map[string]string{"R1": "R1", "R2": "R2", "R3": "R3", "R4": "R4", "R5": "R5", "R6": "R6", "R7": "R7", "R8": "R8", "R9": "R9", "R10": "R10"})
 	c.setterRule("R11")
+	r.Rule("R12", "names are not special to queries and removals: an exported tracker method that creates nothing returns nil / false only under a condition computed from tracker state (a lookup that found nothing, a membership test, the own-record test), never because of the argument's value alone")
+	r.Rule("R13", "every name the server uses can be tracked: a method that creates a nick or a channel (NewNick, NewChannel) refuses only the empty name and a name the tracker already holds - every condition its nil returns depend on is an emptiness test of an argument or is computed from tracker state (no alphabet or format check: a legal nick such as one with a backtick would never be tracked)")
+	c.stateDecidedRule("R12", "R13")
 }
 
 // ---------------- C13 ----------------
@@ -1358,51 +1361,10 @@ func runC13(c *Ctx) {
 	r.Rule("R5", "every successful connect wipes the tracker (shared with C07.R4)")
 	r.Rule("R6", "the parameters the handlers index are the ones the server sent: the parser keeps a trailing parameter whenever a \" :\" section exists, an empty one included - TOPIC #chan : clears the topic (shared with C01.R6)")
 	c.parserTrailingRule("R6")
+	r.Rule("R7", "every name the server uses can be tracked: a method that creates a nick or a channel (NewNick, NewChannel) refuses only the empty name and a name the tracker already holds - every condition its nil returns depend on is an emptiness test of an argument or is computed from tracker state (no alphabet or format check: a legal nick such as one with a backtick would never be tracked) (shared with C12.R13)")
+	c.stateDecidedRule("", "R7")
 
-	verbs := make([]string, 0, len(effectTable))
-	for v := range effectTable {
-		verbs = append(verbs, v)
-	}
-	sort.Strings(verbs)
-	nCalls := 0
-	for _, verb := range verbs {
-		h := a.StTable[verb]
-		if h == nil {
-			r.Add("R1", "handler:"+verb, "-", "", "a state handler is registered for "+verb, false, "no entry in the state table")
-			continue
-		}
-		r.Funcs[c.FuncKey(h)] = true
-		line := ssa.Value(h.Params[1])
-		for _, spec := range effectTable[verb] {
-			found := 0
-			for _, dc := range c.deepTrackerCalls(h, spec.method) {
-				found++
-				nCalls++
-				args := dc.Args
-				ok, why := len(args) == len(spec.args), fmt.Sprintf("%d arguments, want %d", len(args), len(spec.args))
-				if ok {
-					why = "arguments from the prescribed line parts"
-					for i, sp := range spec.args {
-						if okA, w := c.matchArg(args[i], sp, line); !okA {
-							ok, why = false, fmt.Sprintf("argument %d: %s", i, w)
-						}
-					}
-				}
-				if ok {
-					conds := append(append([]Cond{}, CondsAt(dc.Anchor.Block())...), dc.Inner...)
-					for _, cd := range conds {
-						if !c.allowedGuard(cd, line) {
-							ok, why = false, "reached only under an unlisted condition at "+c.InstrPos(cd.If)+" ("+cd.V.String()+")"
-						}
-					}
-				}
-				r.Add("R1", fmt.Sprintf("effect:%s:%s#%d", verb, spec.method, found), c.InstrPos(dc.Site), c.FuncKey(h), verb+" -> "+spec.method+" with the protocol's parameter layout", ok, why)
-			}
-			if found == 0 {
-				r.Add("R1", fmt.Sprintf("effect:%s:%s", verb, spec.method), c.Pos(h.Pos()), c.FuncKey(h), verb+" handler calls "+spec.method, false, "no call of "+spec.method+" in the handler")
-			}
-		}
-	}
+	nCalls := c.effectsRule("R1", nil)
 	r.Floor("R1", "tracker effect call sites checked", nCalls, 13)
 	// 353: per name Associate(channel of Args[2], name) and prefix->mode map
 	c.namesRule(a.StTable["353"])
@@ -1836,4 +1798,279 @@ func (c *Ctx) setterRule(rule string) {
 		}
 	}
 	r.Floor(rule, "attribute stores of exported tracker methods checked on success returns", n, 3)
+}
+
+// stateDecidedRule: an exported tracker method that does not create a nick or
+// a channel answers nil / false only because of what the tracker holds: every
+// such return is dominated by at least one condition computed from tracker
+// state (a map lookup, a loaded field, the result of a helper applied to
+// state). A refusal decided by the argument alone (say the empty name, which a
+// rename can produce) makes the method disagree with the other views.
+func (c *Ctx) stateDecidedRule(rule, creatorRule string) {
+	r := c.R
+	nc := 0
+	trk := c.Named(c.State, "stateTracker")
+	if !r.Anchor(rule, "state.stateTracker", trk != nil) {
+		return
+	}
+	nickT, chanT := c.Named(c.State, "nick"), c.Named(c.State, "channel")
+	ms := c.SSA.MethodSets.MethodSet(types.NewPointer(trk))
+	n := 0
+	for i := 0; i < ms.Len(); i++ {
+		sel := ms.At(i)
+		if !sel.Obj().Exported() {
+			continue
+		}
+		fn := c.SSA.MethodValue(sel)
+		if fn == nil || fn.Blocks == nil || fn.Signature.Results().Len() == 0 {
+			continue
+		}
+		// creators allocate a tracked object (directly or through a constructor)
+		creator := false
+		reach := c.Closure([]*ssa.Function{fn}, func(from *ssa.Function, e Edge) bool {
+			return e.Kind == EdgeCall && !e.Site.Common().IsInvoke() && e.Callee.Package() == c.State
+		})
+		for _, f := range reach.Order {
+			if !c.InModuleFn(f) {
+				continue
+			}
+			funcInstrs(f, func(in ssa.Instruction) {
+				if al, ok := in.(*ssa.Alloc); ok {
+					if nt := namedOf(al.Type()); nt != nil && (nt == nickT || nt == chanT) {
+						creator = true
+					}
+				}
+			})
+		}
+		var fromState func(v ssa.Value, d int) bool
+		fromState = func(v ssa.Value, d int) bool {
+			if d > 6 {
+				return false
+			}
+			switch t := v.(type) {
+			case *ssa.Lookup:
+				return true
+			case *ssa.Extract:
+				return fromState(t.Tuple, d+1)
+			case *ssa.UnOp:
+				if t.Op == token.MUL {
+					if fv, _ := fieldOf(t.X); fv != nil {
+						return true
+					}
+				}
+				return fromState(t.X, d+1)
+			case *ssa.BinOp:
+				return fromState(t.X, d+1) || fromState(t.Y, d+1)
+			case *ssa.Phi:
+				for _, e := range t.Edges {
+					if fromState(e, d+1) {
+						return true
+					}
+				}
+			case *ssa.Call:
+				if b, isB := t.Call.Value.(*ssa.Builtin); isB && b.Name() == "len" {
+					return fromState(t.Call.Args[0], d+1)
+				}
+				// a method of the tracker or of a tracked object: its answer is computed from state
+				if cal := t.Call.StaticCallee(); cal != nil && !t.Call.IsInvoke() {
+					if rn := recvNamed(cal); rn != nil && (rn == trk || rn == nickT || rn == chanT) {
+						return true
+					}
+				}
+				for _, a := range t.Call.Args {
+					if fromState(a, d+1) {
+						return true
+					}
+				}
+			}
+			return false
+		}
+		if creator {
+			if creatorRule != "" {
+				nc += c.creatorRefusals(creatorRule, fn, fromState)
+			}
+			continue
+		}
+		if rule == "" {
+			continue
+		}
+		funcInstrs(fn, func(in ssa.Instruction) {
+			rt, ok := in.(*ssa.Return)
+			if !ok {
+				return
+			}
+			v := retVal(rt, len(rt.Results)-1)
+			refusal := isNilConst(v)
+			if k, isK := v.(*ssa.Const); isK && k.Value != nil && k.Value.Kind() == constant.Bool && !constant.BoolVal(k.Value) {
+				refusal = true
+			}
+			if !refusal {
+				return
+			}
+			n++
+			// control dependence on a state condition: some branch on tracker state has exactly one edge from
+			// which this return can still be reached
+			okS := false
+			funcInstrs(fn, func(x ssa.Instruction) {
+				iff, isIf := x.(*ssa.If)
+				if !isIf || okS || !fromState(unwrapNot(Cond{V: iff.Cond, True: true}).V, 0) {
+					return
+				}
+				b := iff.Block()
+				if len(b.Succs) != 2 {
+					return
+				}
+				reaches := func(sb *ssa.BasicBlock) bool {
+					if len(sb.Instrs) == 0 {
+						return false
+					}
+					if sb == rt.Block() {
+						return true
+					}
+					return ReachFrom(sb.Instrs[0], true, nil)[rt]
+				}
+				if reaches(b.Succs[0]) != reaches(b.Succs[1]) {
+					okS = true
+				}
+			})
+			r.Add(rule, fmt.Sprintf("state-decided:%s#%d", c.FuncKey(fn), n), c.InstrPos(rt), c.FuncKey(fn), "a nil / false answer of a non-creating method follows from tracker state", okS, "this refusal is decided by the arguments alone: the method disagrees with the other views for such arguments")
+		})
+	}
+	if rule != "" {
+		r.Floor(rule, "refusal returns of non-creating exported tracker methods", n, 5)
+	}
+	if creatorRule != "" {
+		r.Floor(creatorRule, "refusal returns of creating tracker methods", nc, 4)
+	}
+}
+
+// creatorRefusals: every nil return of a method that creates a tracked object
+// is decided only by the emptiness of a name argument and by tracker state.
+func (c *Ctx) creatorRefusals(rule string, fn *ssa.Function, fromState func(ssa.Value, int) bool) int {
+	r := c.R
+	n := 0
+	emptyTest := func(v ssa.Value) bool {
+		bo, ok := v.(*ssa.BinOp)
+		if !ok {
+			return false
+		}
+		isP := func(x ssa.Value) bool {
+			if _, ok := x.(*ssa.Parameter); ok {
+				return true
+			}
+			if cl, ok := x.(*ssa.Call); ok {
+				if b, isB := cl.Call.Value.(*ssa.Builtin); isB && b.Name() == "len" {
+					_, ok := cl.Call.Args[0].(*ssa.Parameter)
+					return ok
+				}
+			}
+			return false
+		}
+		isE := func(x ssa.Value) bool {
+			if s, ok := constString(x); ok && s == "" {
+				return true
+			}
+			return isZero(x)
+		}
+		return (isP(bo.X) && isE(bo.Y)) || (isP(bo.Y) && isE(bo.X))
+	}
+	funcInstrs(fn, func(in ssa.Instruction) {
+		rt, ok := in.(*ssa.Return)
+		if !ok || !isNilConst(retVal(rt, len(rt.Results)-1)) {
+			return
+		}
+		n++
+		bad := ""
+		funcInstrs(fn, func(x ssa.Instruction) {
+			iff, isIf := x.(*ssa.If)
+			if !isIf {
+				return
+			}
+			b := iff.Block()
+			if len(b.Succs) != 2 {
+				return
+			}
+			reaches := func(sb *ssa.BasicBlock) bool {
+				if len(sb.Instrs) == 0 {
+					return false
+				}
+				if sb == rt.Block() {
+					return true
+				}
+				return ReachFrom(sb.Instrs[0], true, nil)[rt]
+			}
+			if reaches(b.Succs[0]) == reaches(b.Succs[1]) {
+				return
+			}
+			cv := unwrapNot(Cond{V: iff.Cond, True: true}).V
+			if !fromState(cv, 0) && !emptyTest(cv) {
+				bad = "decided by " + cv.String() + " at " + c.InstrPos(iff) + ": a test of the name other than emptiness"
+			}
+		})
+		r.Add(rule, fmt.Sprintf("creator-refusal:%s#%d", c.FuncKey(fn), n), c.InstrPos(rt), c.FuncKey(fn), "a creating method refuses only the empty name and what the tracker already holds", bad == "", bad)
+	})
+	return n
+}
+
+// effectsRule checks the effect-table entries of the given verbs (all when
+// nil) under rule; it returns the number of tracker call sites checked.
+func (c *Ctx) effectsRule(rule string, only []string) int {
+	r, a := c.R, c.A
+	verbs := make([]string, 0, len(effectTable))
+	for v := range effectTable {
+		if only != nil && !containsStr(only, v) {
+			continue
+		}
+		verbs = append(verbs, v)
+	}
+	sort.Strings(verbs)
+	nCalls := 0
+	for _, verb := range verbs {
+		h := a.StTable[verb]
+		if h == nil {
+			r.Add(rule, "handler:"+verb, "-", "", "a state handler is registered for "+verb, false, "no entry in the state table")
+			continue
+		}
+		r.Funcs[c.FuncKey(h)] = true
+		line := ssa.Value(h.Params[1])
+		for _, spec := range effectTable[verb] {
+			found := 0
+			for _, dc := range c.deepTrackerCalls(h, spec.method) {
+				found++
+				nCalls++
+				args := dc.Args
+				ok, why := len(args) == len(spec.args), fmt.Sprintf("%d arguments, want %d", len(args), len(spec.args))
+				if ok {
+					why = "arguments from the prescribed line parts"
+					for i, sp := range spec.args {
+						if okA, w := c.matchArg(args[i], sp, line); !okA {
+							ok, why = false, fmt.Sprintf("argument %d: %s", i, w)
+						}
+					}
+				}
+				if ok {
+					conds := append(append([]Cond{}, CondsAt(dc.Anchor.Block())...), dc.Inner...)
+					for _, cd := range conds {
+						if !c.allowedGuard(cd, line) {
+							ok, why = false, "reached only under an unlisted condition at "+c.InstrPos(cd.If)+" ("+cd.V.String()+")"
+						}
+					}
+				}
+				r.Add(rule, fmt.Sprintf("effect:%s:%s#%d", verb, spec.method, found), c.InstrPos(dc.Site), c.FuncKey(h), verb+" -> "+spec.method+" with the protocol's parameter layout", ok, why)
+			}
+			if found == 0 {
+				r.Add(rule, fmt.Sprintf("effect:%s:%s", verb, spec.method), c.Pos(h.Pos()), c.FuncKey(h), verb+" handler calls "+spec.method, false, "no call of "+spec.method+" in the handler")
+			}
+		}
+	}
+	return nCalls
+}
+
+func containsStr(l []string, s string) bool {
+	for _, x := range l {
+		if x == s {
+			return true
+		}
+	}
+	return false
 }
